@@ -160,6 +160,36 @@ func (vc *VC) execCall(x *ssa.Call, c *ssa.CallCommon, st *State, holder ssa.Val
 		if spec == nil {
 			vc.fail("no contract for %s", key)
 		}
+		if spec.AliasOf != "" {
+			// the function value is (proved to be) a closure of a known function: that function's contract applies
+			tf := vc.w.findFunc(spec.Pkg, spec.AliasOf)
+			if tf == nil {
+				vc.fail("contract: funcfield alias: no function %s in %s", spec.AliasOf, spec.Pkg)
+			}
+			tspec := vc.w.specFor(tf)
+			if tspec == nil {
+				vc.fail("no contract for closure %s", funcKey(tf))
+			}
+			fv := vc.val(c.Value)
+			code := "code." + sanitize(funcKey(tf))
+			vc.d.declFun(code, fmt.Sprintf("(declare-const %s Int)", code))
+			vc.d.declFun("fncode", "(declare-fun fncode (Int) Int)")
+			vc.safety("closure", fmt.Sprintf("(and (> %s 0) (= (fncode %s) %s))", fv, fv, code), "the function value called is the closure "+spec.AliasOf)
+			for i, fvar := range tf.FreeVars {
+				fvn := fmt.Sprintf("fv.%s.%d", sanitize(funcKey(tf)), i)
+				vc.d.declFun(fvn, fmt.Sprintf("(declare-fun %s (Int) %s)", fvn, vc.d.sortOf(fvar.Type())))
+				binds[fvar.Name()] = SVal{t: fmt.Sprintf("(%s %s)", fvn, fv), typ: fvar.Type(), sort: "Int", cellOf: derefType(fvar.Type())}
+			}
+			for i, a := range c.Args {
+				av := mkArg(a)
+				argVals = append(argVals, av)
+				binds[paramName(tspec, tf.Signature, i)] = av
+			}
+			spec = tspec
+			calleeName = tf.Name()
+			pureKey = funcKey(tf)
+			break
+		}
 		if owner != "" {
 			binds["owner"] = SVal{t: owner, typ: ownerT, sort: "Int"}
 		}
